@@ -71,10 +71,34 @@ let h (item : n list) : n list =
   | Some d -> d
   | None -> incr missing; List.init 32 (fun _ -> N0)
 let colls : (string, (n list * n) list) Hashtbl.t = Hashtbl.create 64
+(* The collector is external code for the model (sst/src/gc.rs, C05's subject).  The check registers
+   the answers for the inputs of the real GCs (command `c`); for other inputs (files tampered in
+   place) the driver evaluates `versions = n` itself: a value is kept while the key's cumulative
+   weight (2 directly under a tombstone, else 1) is <= n, and keeps the tombstone directly above. *)
+let versions = ref 1
+let coll_versions (input : entry list) : (n list * n) list =
+  let arr = Array.of_list input in
+  let len = Array.length arr in
+  let keep = Array.make len false in
+  let i = ref 0 in
+  while !i < len do
+    let j = ref !i in
+    while !j < len && arr.(!j).ek = arr.(!i).ek do incr j done;
+    let w = ref 0 in
+    for x = !i to !j - 1 do
+      if arr.(x).ev <> None then begin
+        let under = x > !i && arr.(x - 1).ev = None in
+        w := !w + (if under then 2 else 1);
+        if !w <= !versions then begin keep.(x) <- true; if under then keep.(x - 1) <- true end
+      end
+    done;
+    i := !j
+  done;
+  List.filteri (fun x _ -> keep.(x)) input |> List.map (fun e -> (e.ek, e.ets))
 let coll (input : entry list) : (n list * n) list =
   match Hashtbl.find_opt colls (show_entries input) with
   | Some l -> l
-  | None -> incr missing; []
+  | None -> coll_versions input
 
 let code_name = function
   | CMissing -> "missing" | CBadInfo -> "bad-info" | CNoContinue -> "no-continue" | CNoBalance -> "no-balance"
@@ -144,6 +168,7 @@ let () =
                   | [k; ts] -> (bytes_of_hex k, n_of_dec ts) | _ -> failwith "bad keyref") (split ',' (String.trim ks)) in
               Hashtbl.replace colls (show_entries (parse_entries (String.trim es))) krs; print_endline "ok"
             | _ -> print_endline "bad")
+         | "policy" -> versions := int_of_string (w 0); print_endline "ok"
          | "new" -> s := open_fresh; over := []; gone := []; missing := 0; print_endline "ok"
          | "flush" -> step (BFlush (parse_entries (w 2), n_of_dec (w 0), w 1 = "1"))
          | "compact" -> step (BCompact (nm (w 1), lens (w 2), w 0 = "1"))
@@ -156,7 +181,11 @@ let () =
              (match m.mL with None -> "-" | Some l -> dec_of_n l) (names_str m.mstrs) (names_str (names !s.btree))
              (List.length (fragments !s)) (hex_of_state (compute_setsum !s.btree))
          | "frags" ->
-           print_endline ("F " ^ String.concat ";" (List.map (fun fr -> String.concat "|" (List.map show_txn fr)) (fragments !s)))
+           (* fragments from index K on (0-based); "F n frag;frag" with n the total number *)
+           let k = if w 0 = "-" then 0 else int_of_string (w 0) in
+           let frs = fragments !s in
+           print_endline ("F " ^ string_of_int (List.length frs) ^ " " ^
+                          String.concat ";" (List.map (fun fr -> String.concat "|" (List.map show_txn fr)) (List.filteri (fun i _ -> i >= k) frs)))
          | "files" ->
            print_endline ("T " ^ String.concat ";" (List.map (fun f -> hex_of_state f.bsum ^ "=" ^ hex_of_state (builder_setsum h f.bents) ^ "=" ^ show_entries f.bents) !s.btree))
          | "verify" ->
